@@ -405,10 +405,20 @@ func checkCLI(c Case, exp string) error {
 	if c.Rooted {
 		args = append(args, "-r")
 	}
+	toFile := (c.Seed+int64(c.N))%2 == 0 // half of the cases write the trees with -o
+	if toFile {
+		args = append(args, "-o", "gen.nw")
+	}
 	r := cli.Run(dir, "", args...)
 	ctx := fmt.Sprintf(" (gotree %s)", strings.Join(args, " "))
 	if r.TimedOut {
 		return fmt.Errorf("command did not finish%s", ctx)
+	}
+	if toFile {
+		if strings.TrimSpace(r.Stdout) != "" && exp == "ok" {
+			return fmt.Errorf("told to write to a file, the command prints %q%s", r.Stdout, ctx)
+		}
+		r.Stdout = cli.Read(dir, "gen.nw")
 	}
 	if r.Panicked() {
 		return fmt.Errorf("command crashed%s: %s", ctx, firstLines(r.Stderr))
@@ -471,7 +481,7 @@ func TestC16Generators(t *testing.T) {
 	}
 	h.Run(t, h.Spec[Case]{
 		Property: "C16", Name: "generators", Quick: 12000, Thorough: 320000,
-		Rule: "6 generators (uniform, Yule, caterpillar, balanced, star, star from names) x sizes -1..60 (thorough 400; depth -1..7/10) with a quarter of the cases at -1..4 x rooted x seed; valid sizes must succeed and give a structurally well-formed binary tree (root degree 2 or 3 as requested) with exactly n uniquely named tips, all lengths present and >= 0, TipIndex/bitsets/TopoDepth and (unrooted trees) node depths correct without further calls, caterpillar (inner nodes form a path) / perfectly balanced / single-inner-node shape; sizes below the documented minimum must be refused with an error; 2 tips unrooted (no binary unrooted tree exists) may be refused or not but must not crash; 5% of the cases through `gotree generate ... --seed -n -l/-d [-r]` (exit status, number of trees, shape, no Go panic trace); non-trivial = valid size with >= 5 tips",
+		Rule: "6 generators (uniform, Yule, caterpillar, balanced, star, star from names) x sizes -1..60 (thorough 400; depth -1..7/10) with a quarter of the cases at -1..4 x rooted x seed; valid sizes must succeed and give a structurally well-formed binary tree (root degree 2 or 3 as requested) with exactly n uniquely named tips, all lengths present and >= 0, TipIndex/bitsets/TopoDepth and (unrooted trees) node depths correct without further calls, caterpillar (inner nodes form a path) / perfectly balanced / single-inner-node shape; sizes below the documented minimum must be refused with an error; 2 tips unrooted (no binary unrooted tree exists) may be refused or not but must not crash; 5% of the cases through `gotree generate ... --seed -n -l/-d [-r]`, half of them with -o file (exit status, number of trees, shape, no Go panic trace); non-trivial = valid size with >= 5 tips",
 		Gen: genCase, Check: check, Anchors: anchors,
 		Classify: func(c Case) (bool, []string) {
 			e := expectation(c)
